@@ -75,7 +75,11 @@ PROPS = {
         explanation="Go VerifyWithOptions / VerifyExpandedWithOptions / crypto/ed25519.Verify vs the declarative Lean predicate Spec.Ed25519.verify",
     ),
     "C02": dict(level="proof", streams=[("K1", 1500)], configs_quick=Q4, configs_thorough=T4, theorems=reg("Voi.Props.C02", "Voi.Props.C01Concrete")),
-    "C03": dict(level="proof", streams=[("G1", 1500), ("G2", 800)], configs_quick=T4, configs_thorough=T4, thorough_mult=4,
+    "C03": dict(level="proof", streams=[("G1", 1500), ("G2", 800),
+                                        # every routine also from 16 goroutines at once (scratch space must be per call)
+                                        ("G1", 600, {"parallel": 16, "configs": ["default", "purego"]}),
+                                        # a burst of adjacent Pippenger-sized requests: many goroutines inside the bucket method at once
+                                        ("G3", 48, {"parallel": 16, "configs": ["default", "purego"]})], configs_quick=T4, configs_thorough=T4, thorough_mult=4,
                 theorems=reg("Voi.Props.C03", "Voi.Props.C03.Basic", "Voi.Props.C03.Buckets", "Voi.Proofs.SpecBridge", "Voi.Proofs.EdwardsCurve", "Voi.Proofs.EdwardsExt", "Voi.Proofs.Ed25519Group", "Voi.Proofs.Primes")),
     "C04": dict(level="proof", gens=["go2ir"], streams=[("T0", 6000), ("F2", 5000), ("G1", 600)], configs_quick=["default", "purego", "force32bit"], configs_thorough=T4,
                 theorems={**IR_CORE, **L0_FIELD, **reg("Voi.Proofs.SqrtRatio")}),
@@ -85,7 +89,8 @@ PROPS = {
     "C09": dict(level="proof", streams=[("B1", 1500), ("C1", 1500)], configs_quick=Q4, configs_thorough=T4, thorough_mult=4,
                 theorems={"Voi.Props.BatchInv": BATCH_THMS, "Voi.Props.CacheInv": CACHE_THMS}),
     "C10": dict(level="proof", streams=[("D1", 3000)], configs_quick=Q4, configs_thorough=T4, gens=["go2ir"], theorems=reg("Voi.Props.C10", "Voi.Proofs.SqrtRatio", "Voi.Props.L0.Pred_IsCanonicalVartime", "Voi.Props.PredBridge")),
-    "C11": dict(level="proof", streams=[("T1", 3000)], configs_quick=Q4, configs_thorough=T4, theorems=reg("Voi.Props.C11")),
+    "C11": dict(level="proof", streams=[("T1", 3000), ("T1", 800, {"parallel": 16, "configs": ["default", "purego"]}),
+                                        ("T3", 64, {"parallel": 16, "configs": ["default", "purego"]})], configs_quick=Q4, configs_thorough=T4, theorems=reg("Voi.Props.C11")),
     "C12": dict(level="proof", gens=["go2ir"], streams=[("Q1", 2500), ("M1", 2000)], configs_quick=Q4, configs_thorough=T4,
                 theorems=reg("Voi.Props.C12", "Voi.Props.L0.Pred_ScMinimalVartime", "Voi.Props.ScMinimal", "Voi.Props.PredBridgeSc")),
     "C13": dict(level="proof", streams=[("M1", 4000), ("S0", 2000), ("M2", 1500),
@@ -102,7 +107,7 @@ PROPS = {
                                         # the stateless API workload executed from 16 goroutines sharing all package-level state;
                                         # replies must equal the sequential model; once more under the Go race detector
                                         ("K1", 1200, {"parallel": 16, "configs": ["default"]}), ("V1", 1500, {"parallel": 16, "configs": ["default"]}),
-                                        ("X1", 800, {"parallel": 16, "configs": ["default"]}), ("G1", 400, {"parallel": 16, "configs": ["default"]}),
+                                        ("X1", 800, {"parallel": 16, "configs": ["default"]}), ("G1", 400, {"parallel": 16, "configs": ["default"]}), ("G3", 48, {"parallel": 16, "configs": ["default", "purego"]}), ("T3", 64, {"parallel": 16, "configs": ["default"]}),
                                         ("E1", 300, {"parallel": 16, "configs": ["default"]}), ("H2", 400, {"parallel": 16, "configs": ["default"]}),
                                         ("K1", 300, {"parallel": 16, "race": True, "configs": ["default"]}), ("V1", 300, {"parallel": 16, "race": True, "configs": ["default"]}),
                                         ("X1", 200, {"parallel": 16, "race": True, "configs": ["default"]}),
